@@ -24,8 +24,8 @@ CLAIMED = {
 }
 NA = {
  'C11': 'attempted and out of reach: RadioTap::RadioTap() (six in-place vector insertions through Utils::RadioTapWriter) alone gets no verdict from CBMC in 300 s / 12 GB, and the from-buffer parser is only decided up to 3 option bytes (C01); the inductive setter step of DESIGN 5/C11 therefore cannot be discharged on this image',
- 'C10': 'not decided: the section getters and add_* editors work on std::string / std::list<record> built from a symbolic-length byte walk; DNS(buffer) itself is only decided up to 14 bytes (C01) and no editor query finished; no claim is made',
- 'C08': 'not decided: IPv4Stream/IPv4Reassembler keep std::vector<IPv4Fragment> + std::map keyed by address pairs and re-parse the concatenated payload through the full dispatcher; no harness with more than one fragment finished within the budget; no claim is made',
+ 'C10': 'not decided and not attempted beyond reading the code: the section getters and add_* editors work on std::string / std::list<record> built from a symbolic-length byte walk, and DNS(buffer) itself is only decided up to 14 bytes (C01); no claim is made',
+ 'C08': 'attempted (props/C08.py, shim/c08.cpp are kept, not registered): IPv4Reassembler::process on concrete schedules of API-built fragments with symbolic payload. One packet is decided in 7 s; from the second packet on no query finished in 600 s: inside process() the header fields read through the IP* found by find_pdu<IP>() are not constant-folded by CBMC, so the std::map lookup and the std::vector<IPv4Fragment> insertion behind it are explored symbolically (DESIGN.md 0.7). No claim is made',
  'C17': 'file round-trip and BPF filter semantics are libpcap + file-system behaviour (FFI / I/O); once they are stubbed nothing libtins-authored remains except the exception filter of the capture loop',
 }
 PENDING = 'not decided by the committed machinery yet (see DESIGN.md for the planned encoding); no claim is made'
